@@ -184,6 +184,9 @@ func (sp Spec) Build() *asv1.StatefulSet {
 	if sp.Deleting {
 		t := T0
 		set.DeletionTimestamp = &t
+		// an object with a deletion timestamp exists only while a finalizer holds it; this one is nobody's the garbage
+		// collector knows
+		set.Finalizers = []string{"example.com/hold"}
 	}
 	for _, c := range sp.Claims {
 		var own map[string]string
